@@ -82,7 +82,6 @@ PIPELINE_KINDS = [
     "UNDEFINED_INITIAL_NUMERIC_REMOVING",
 ]
 PIPELINE_PROFILE = dict(undefined_init=0.0, traj=0.0, invariants=0.25, int_params=0.1, metric_p=0.3)
-PIPELINE_DURATIVE = 0.25  # share of pipeline inputs that are durative problems
 NAME_CREATING = {"grounder", "cerm", "dcrm", "ncrm", "tcrm", "uinrm"}
 LABEL_OF_CLASS = {v[1]: k for k, v in TARGETS.items()}
 # every compilation kind with a registered engine for single-agent action-based problems (C09 pipelines)
@@ -195,19 +194,94 @@ def gen_durative(rng, fragment):
     return rec, feats
 
 
-def build_case(key, target, tries=6):
-    """-> dict(rec, feats, pb, rejected=<count>, why=[...]) ; pb None when no recipe inside the kind was found."""
+def _force_object_fluent(rec, rng):
+    """Make sure an object-valued fluent exists and is assigned a *non-constant* value (an action parameter) by some action
+    (UsertypeFluentsRemover only has work to do - and only then produces the conditional effects it declares - for those).
+    Works on instantaneous and durative action recipes."""
+    fathers = dict((n, f) for n, f in rec["types"])
+
+    def is_sub(t, anc):
+        while t is not None:
+            if t == anc:
+                return True
+            t = fathers.get(t)
+        return False
+
+    cands = []  # (action, param name, fluent) with param type <= fluent type, nullary object fluents only
+    ofl = [f for f in rec["fluents"] if isinstance(f["type"], list) and f["type"][0] == "user" and not f["sig"]]
+    for a in rec["actions"]:
+        for pn, pt in a["params"]:
+            if isinstance(pt, list) and pt[0] == "user":
+                for f in ofl:
+                    if is_sub(pt[1], f["type"][1]):
+                        cands.append((a, pn, f))
+    if not cands:
+        ups = [(a, pn, pt) for a in rec["actions"] for pn, pt in a["params"] if isinstance(pt, list) and pt[0] == "user"]
+        if not ups:
+            return False
+        a, pn, pt = rng.choice(ups)
+        objs = [o for o, ot in rec["objects"] if is_sub(ot[1], pt[1])]
+        if not objs:
+            return False
+        used = {n for n, _ in rec["types"]} | {n for n, _ in rec["objects"]} | {f["name"] for f in rec["fluents"]} | {x["name"] for x in rec["actions"]}
+        name = next(n for n in ("at", "at_0", "loc_of", "holder", "of0", "of1") + tuple(f"of{k}" for k in range(2, 50)) if n not in used)
+        f = {"name": name, "type": ["user", pt[1]], "sig": [], "default": ["o", rng.choice(objs)]}
+        rec["fluents"].append(f)
+        cands = [(a, pn, f)]
+    a, pn, f = rng.choice(cands)
+    fe = ["f", f["name"]]
+    eff = {"kind": "assign", "fluent": fe, "value": ["p", pn], "cond": None, "forall": []}
+    if "duration" in a:
+        if any(e["fluent"] == fe for _, e in a["effects"]):
+            return True
+        a["effects"].append([["end", "0"], eff])
+        if rng.random() < 0.5:
+            a["conds"].append([["point", ["start", "0"]], ["not", ["eq", fe, ["p", pn]]]])
+    else:
+        if any(e["fluent"] == fe for e in a["effects"]):
+            return True
+        a["effects"].append(eff)
+        if rng.random() < 0.5:
+            a["pre"].append(["not", ["eq", fe, ["p", pn]]])
+    return True
+
+
+def class_of_kind(ck_name):
+    """The compiler class the default factory registers for a compilation kind (single-agent problems)."""
+    for t, row in TARGETS.items():
+        if row[2] == ck_name and ck_name in ALL_PIPELINE_KINDS:
+            return compiler_class(t)
+    return None
+
+
+TEMPORAL_KINDS = ("TIMED_TO_SEQUENTIAL", "DURATIVE_ACTIONS_TO_PROCESSES")
+
+
+def build_case(key, target, tries=6, require=None):
+    """-> dict(rec, feats, pb, rejected=<count>, why=[...]) ; pb None when no recipe inside the kind was found.
+    `require` (pipelines only): a sequence of compilation-kind names; the problem is then drawn for that request: durative
+    problems (vk/gen/durative_cm.py) are mixed in, the features that give the requested stages something to do are forced
+    with some probability, and recipes are regenerated until every requested stage's compiler supports the problem's kind
+    (when no such recipe is found in `tries` attempts the last buildable one is used: pipelines whose later stages only
+    support the chained kind are cases too)."""
     from unified_planning.exceptions import UPException
 
     rng = rng_for(key, "build")
+    stage_classes = []
     if target == "pipeline":
-        prof, flags, Comp = dict(PIPELINE_PROFILE), {"join_trap": 0.3, "durative": PIPELINE_DURATIVE}, None
+        prof, flags, Comp = dict(PIPELINE_PROFILE), {"join_trap": 0.3}, None
+        if require:
+            stage_classes = [c for c in (class_of_kind(ck) for ck in require) if c is not None]
+            tries = max(tries, 8)
     else:
         prof, flags = dict(TARGETS[target][3]), TARGETS[target][4]
         Comp = compiler_class(target)
     metric_p = prof.pop("metric_p", 0.0)
     metric_choices = prof.pop("metric_choices", None)
     why = []
+    fallback = None
+    temporal = bool(require) and any(ck in TEMPORAL_KINDS for ck in require)
+    strict = bool(stage_classes) and rng.random() < 0.7  # else: the first stage must support the input, later ones may rely on the chained kind
     for t in range(tries):
         pf = dict(prof)
         if target == "pipeline" and rng.random() < 0.4:
@@ -215,18 +289,33 @@ def build_case(key, target, tries=6):
         pf["names"] = idents.make_names()
         if rng.random() < metric_p:
             pf["metric"] = rng.choice(metric_choices) if metric_choices else "any"
+        durative = False
         if flags.get("gen") == "durative":
             rec, feats = gen_durative(rng, target)
-        elif target == "pipeline" and rng.random() < flags.get("durative", 0.0):
-            rec, feats = gen_durative(rng, rng.choice(["t2s", "t2s", "da2p"]))
+        elif require and rng.random() < (0.65 if temporal else 0.12):
+            durative = True
+            rec, feats = gen_durative(rng, "t2s" if "TIMED_TO_SEQUENTIAL" in require or rng.random() < 0.3 else "da2p")
         else:
+            if temporal:
+                # the temporal compilers support neither conditional effects nor invariants (and the processes compiler no
+                # quantifiers / forall effects): stay near their kinds, regeneration does the rest
+                pf.update(cond_effects=False, invariants=0.0, interpreted_functions=0.0)
+                if "DURATIVE_ACTIONS_TO_PROCESSES" in require:
+                    pf.update(quantifiers=False, forall_effects=False)
+            # NB interpreted functions are not forced for INTERPRETED_FUNCTIONS_REMOVING requests: the remover leaves calls in
+            # goals while declaring INTERPRETED_FUNCTIONS_IN_CONDITIONS removed (reported as a candidate finding), so that every
+            # such pipeline would re-report that one defect as "pipeline-rejects-intermediate"
+            if require and "UNDEFINED_INITIAL_NUMERIC_REMOVING" in require and rng.random() < 0.5:
+                pf["undefined_init"] = 0.5
             rec, feats = gen_problem(rng, pf)
-        if flags.get("define_symbolic"):
+        if flags.get("define_symbolic") or (require and "UNDEFINED_INITIAL_NUMERIC_REMOVING" in require and not durative):
             _define_symbolic(rec, rng)
-        if flags.get("force_cond"):
+        if flags.get("force_cond") or (require and "CONDITIONAL_EFFECTS_REMOVING" in require and not durative and rng.random() < 0.5):
             _force_conditional(rec, rng)
+        if require and "USERTYPE_FLUENTS_REMOVING" in require and rng.random() < 0.75:
+            _force_object_fluent(rec, rng)
         idents.rename_locals(rec, rng)
-        if flags.get("join_trap") and rng.random() < flags["join_trap"]:
+        if flags.get("join_trap") and not durative and rng.random() < flags["join_trap"]:
             idents.inject_join_trap(rec, rng)
         e = _env.fresh_env()
         try:
@@ -242,7 +331,17 @@ def build_case(key, target, tries=6):
         if Comp is not None and not Comp.supports(kind):
             why.append("unsupported:" + ",".join(sorted(kind.features - Comp.supported_kind().features)))
             continue
-        return dict(rec=rec, feats=feats, pb=pb, env=e, kind=kind, rejected=t, why=why)
+        case = dict(rec=rec, feats=feats, pb=pb, env=e, kind=kind, rejected=t, why=why, all_stages_support=True)
+        if stage_classes and not all(c.supports(kind) for c in stage_classes):
+            case["all_stages_support"] = False
+            if strict or not stage_classes[0].supports(kind):
+                why.append("unsupported-by-some-stage")
+                fallback = case
+                continue
+        return case
+    if fallback is not None:
+        fallback["rejected"] = tries - 1
+        return fallback
     return dict(rec=None, feats=None, pb=None, env=None, kind=None, rejected=tries, why=why)
 
 
